@@ -232,6 +232,20 @@ def c05d(tree, ob):
 
 
 def c05e(tree, ob):
+    # every fragment re-enters through the whole TX chain: steps that add blocks must leave fragments alone, or each
+    # fragment grows past the MTU it was cut for (and carries security blocks that were never part of the bundle)
+    for meth in ('_apply_bib', '_apply_bcb'):
+        if not tree.has_func('bp/app/bpsec.py', 'Bpsec.' + meth):
+            continue
+        fs = FuncView(tree, 'bp/app/bpsec.py', 'Bpsec.' + meth)
+        work = [c for c in calls_in(fs.func) if isinstance(c.func, ast.Attribute) and c.func.attr in ('apply_bib', 'apply_bcb')]
+        for c in work:
+            facts = fs.facts(c) or frozenset()
+            if any(p is False and t.endswith('bundle_flags & PrimaryBlock.Flag.IS_FRAGMENT') for (t, p) in facts):
+                ob.site('bp/app/bpsec.py', c, meth + ': not applied to fragments')
+            else:
+                ob.violate('bp/app/bpsec.py', fs.qual, src(c)[:60], 'the security step also runs for every fragment when it re-enters the transmit chain: each fragment gets a further security block '
+                           '(or is encrypted again), exceeds the MTU it was cut for, and the reassembled bundle fails verification', c)
     steps = [s for s in chain_steps(tree) if s['chain'] == 'tx']
     sec = [s for s in steps if s['cls'] == 'Bpsec']
     frag = [s for s in steps if s['cls'] == 'Fragment']
